@@ -417,6 +417,10 @@ void NifFile::SortController(NiTimeController* controller, SortState& sortState)
 }
 
 void NifFile::SortCollision(NiObject* parent, uint32_t parentIndex, SortState& sortState) {
+	// Guard against reference cycles (e.g. a body referencing itself or one of its ancestors)
+	if (!sortState.collisionIndicesInProgress.insert(parentIndex).second)
+		return;
+
 	auto constraint = dynamic_cast<bhkConstraint*>(parent);
 	if (constraint) {
 		for (auto& entityId : constraint->entityRefs) {
@@ -471,6 +475,8 @@ void NifFile::SortCollision(NiObject* parent, uint32_t parentIndex, SortState& s
 				SortCollision(child, id, sortState);
 		}
 	}
+
+	sortState.collisionIndicesInProgress.erase(parentIndex);
 }
 
 void NifFile::SortShape(NiShape* shape, SortState& sortState) {
